@@ -91,7 +91,27 @@ func optZ(v int64, ok bool) string {
 }
 
 // ---- kind 0: vhost.Routers shared with an HTTPReverseProxy ----
+// pools returns the domains and users a history draws from: every other history is "dense" (two
+// domains, one or two users, more Del) so that single (domain, user) slices grow to several locations
+// and lose entries from the front and the middle.
+func pools(g *hx.Gen) (doms, usrs []string, dense bool) {
+	if g.Chance(0.5) {
+		return regDomains, users, false
+	}
+	doms = []string{g.Pick(regDomains), g.Pick(regDomains)}
+	usrs = []string{g.Pick(users)}
+	if g.Chance(0.4) {
+		usrs = append(usrs, g.Pick(users))
+	}
+	return doms, usrs, true
+}
+
 func historyRouters(g *hx.Gen, nops int, dist map[string]int) []string {
+	doms, usrs, dense := pools(g)
+	if dense {
+		nops += 15
+		dist["dense history"]++
+	}
 	routers := vhost.NewRouters()
 	rp := vhost.NewHTTPReverseProxy(vhost.HTTPReverseProxyOptions{}, routers)
 	var ops []string
@@ -100,7 +120,7 @@ func historyRouters(g *hx.Gen, nops int, dist map[string]int) []string {
 	for i := 0; i < nops; i++ {
 		switch x := g.Intn(100); {
 		case x < 40:
-			t := triple{g.Pick(regDomains), g.Pick(regLocations), g.Pick(users)}
+			t := triple{g.Pick(doms), g.Pick(regLocations), g.Pick(usrs)}
 			if g.Chance(0.15) && len(live) > 0 {
 				t = live[g.Intn(len(live))] // provoke a conflict, possibly with other letter case
 				if g.Chance(0.5) {
@@ -124,7 +144,7 @@ func historyRouters(g *hx.Gen, nops int, dist map[string]int) []string {
 			}
 			ops = append(ops, fmt.Sprintf("OAdd %s %s %s %d %s", hx.HxS(t.d), hx.HxS(t.l), hx.HxS(t.u), label, hx.Bool(err == nil)))
 		case x < 55:
-			t := triple{g.Pick(regDomains), g.Pick(regLocations), g.Pick(users)}
+			t := triple{g.Pick(doms), g.Pick(regLocations), g.Pick(usrs)}
 			if g.Chance(0.75) && len(live) > 0 {
 				j := g.Intn(len(live))
 				t = live[j]
